@@ -96,6 +96,9 @@ pub struct Sel {
     pub checkpin: Option<u8>,
     /// CASTLE2 + PAWNROW
     pub castle2: bool,
+    /// HIST-COUNTERS: every line of <= n plies from every COUNTERS position, on the real board
+    /// (counter values that only play can produce on a board)
+    pub hist_counters: Option<u32>,
 }
 
 impl Sel {
@@ -373,6 +376,21 @@ pub fn run_universes(run: &mut Run, sel: &Sel, disagree_idx: usize, check: PosCh
             uni::pawnrow(sh as u8, &mut |p| visit(ctx, p, disagree_idx, check));
         });
     }
+    if let Some(depth) = sel.hist_counters {
+        let roots = uni::counters();
+        let chunks: Vec<&[Pos]> = roots.chunks(16).collect();
+        run.par_shards(&format!("HIST-COUNTERS: every line of <= {} plies from the {} COUNTERS positions played on the real board", depth, roots.len()), chunks.len(), |ctx, sh| {
+            for root in chunks[sh] {
+                let Some(b) = board_of(root) else {
+                    ctx.add(disagree_idx, 1);
+                    continue;
+                };
+                for m in root.legal() {
+                    hist_step(ctx, root, root, &b, m, &mut Vec::new(), depth - 1, disagree_idx, check);
+                }
+            }
+        });
+    }
     if let Some((seed_depth, special_depth)) = sel.hist {
         if seed_depth > 0 {
             let seeds = uni::seeds();
@@ -484,7 +502,10 @@ pub fn hist_step(ctx: &mut Ctx, root: &Pos, p: &Pos, board: &Board, m: Mv, path:
             return;
         }
     };
-    let q = p.apply(m);
+    // the implementation's counters saturate at 65535
+    let mut q = p.apply(m);
+    q.hmc = q.hmc.min(65535);
+    q.fmn = q.fmn.min(65535);
     path.push(m);
     let first_new = ctx.viol.len();
     set_slot_hist(root, path);
@@ -514,6 +535,8 @@ fn replay_hist(case: &Value, ctx: &mut Ctx, check: PosCheck) {
         let Ok(nb) = board.make_move(mv) else { return };
         board = nb;
         p = p.apply(m);
+        p.hmc = p.hmc.min(65535);
+        p.fmn = p.fmn.min(65535);
     }
     check(ctx, &p, &board);
 }
